@@ -187,6 +187,9 @@ def method_set(tier):
         for a in core:
             for b in core:
                 add("P", [a, b], None, few=True)
+    # several validated strings in one call (each &str parameter is validated on its own)
+    add("P", [A.Slice(A.Prim("u8"), "ref", "str"), A.Slice(A.Prim("u8"), "ref", "str")], None)
+    add("P", [A.Prim("u8"), A.Slice(A.Prim("u8"), "ref", "str"), A.Slice(A.Prim("u8"), "ref", "DiplomatStr"), A.Slice(A.Prim("u8"), "ref", "str")], None, few=True)
     add("P", [A.Prim("u8"), A.Prim("f64"), A.Prim("u16"), A.ST, A.Prim("f32"), A.Prim("i64"), A.Prim("bool"), A.Slice(A.Prim("u8"), "ref"), A.Prim("u32"), A.EN, A.Prim("f64")], None, few=True)
     # ---- return shapes
     rshapes = list(prims) + [A.EN, A.ENN] + structs
@@ -775,15 +778,24 @@ def _py_utf8(b):
 BOUNDARY = [0x00, 0x7F, 0x80, 0x8F, 0x90, 0x9F, 0xA0, 0xBF, 0xC0, 0xC1, 0xC2, 0xDF, 0xE0, 0xE1, 0xEC, 0xED, 0xEE, 0xEF, 0xF0, 0xF1, 0xF3, 0xF4, 0xF5, 0xFF]
 
 
-def cpp_utf8_sweep(types, m):
-    """exhaustive: all byte strings of length <= 2, length 3 and 4 over the boundary alphabet, through a direct &str parameter"""
+def cpp_utf8_sweep(types, m, pos=0):
+    """exhaustive: all byte strings of length <= 2, length 3 and 4 over the boundary alphabet, through the direct &str parameter number `pos`
+    (the other parameters get fixed valid values)"""
     fn = cpp_fn(types, m)
-    return ("""static void utf8_%(i)d(void) {
+    args = []
+    for k, t in enumerate(m["params"]):
+        if k == pos:
+            args.append("std::string_view((const char*)buf, n)")
+        elif isinstance(t, A.Slice):
+            args.append('std::string_view("ok", 2)')
+        else:
+            args.append(t.cpp_lit(t.base(), CCtx("cpp")))
+    return ("""static void utf8_%(i)d_%(pos)d(void) {
     static const unsigned char AL[] = { %(al)s };
     unsigned long long total = 0, accepted = 0, mism = 0, leaked = 0; unsigned char first[4] = {0,0,0,0}; size_t firstn = 0;
     unsigned char buf[4];
     auto one = [&](size_t n) {
-        auto r = %(fn)s(std::string_view((const char*)buf, n));
+        auto r = %(fn)s(%(args)s);
         size_t ln = verif_take_log(LOGBUF, sizeof LOGBUF);
         bool want = ref_utf8(buf, n);
         total++; if (r.is_ok()) accepted++;
@@ -800,7 +812,7 @@ def cpp_utf8_sweep(types, m):
     printf("UTF8 %(i)d total=%%llu accepted=%%llu mismatches=%%llu reached_rust_when_invalid=%%llu first=", total, accepted, mism, leaked);
     for (size_t q = 0; q < firstn; q++) printf("%%02x", first[q]);
     printf("\\n"); fflush(stdout);
-}""" % dict(i=m["i"], fn=fn, al=", ".join(str(x) for x in BOUNDARY)))
+}""" % dict(i=m["i"], pos=pos, fn=fn, args=", ".join(args), al=", ".join(str(x) for x in BOUNDARY)))
 
 
 def utf8_sweep_expected():
@@ -828,8 +840,13 @@ def utf8_sweep_expected():
 def render_cpp_drivers(types, methods, headers, nshards=16):
     """returns ([source texts], cases, sweep methods): shard k holds every k-th method's cases"""
     cases = expand_cases(methods)
-    sweeps = [m for m in methods if m["kind"] == "P" and len(m["params"]) == 1 and isinstance(m["params"][0], A.Slice)
-              and m["params"][0].enc == "str" and m["params"][0].kind == "ref"]
+    sweeps = []
+    for m in methods:
+        if m["kind"] == "P" and all(not (isinstance(t, A.Slice) and t.kind != "ref") for t in m["params"]):
+            for k, t in enumerate(m["params"]):
+                if isinstance(t, A.Slice) and t.enc == "str" and (len(m["params"]) > 1 or True):
+                    if len(m["params"]) == 1 or sum(1 for x in m["params"] if isinstance(x, A.Slice) and x.enc == "str") > 1:
+                        sweeps.append((m, k))
     head = [CPP_PRELUDE] + ['#include "%s"' % h for h in headers]
     shards = []
     for k in range(nshards):
@@ -843,15 +860,15 @@ def render_cpp_drivers(types, methods, headers, nshards=16):
         L.append("}")
         shards.append("\n".join(L) + "\n")
     L = list(head)
-    for m in sweeps:
-        L.append(cpp_utf8_sweep(types, m))
+    for (m, k) in sweeps:
+        L.append(cpp_utf8_sweep(types, m, k))
     for k in range(nshards):
         L.append("void run_shard_%d(void);" % k)
     L.append("int main() {")
     for k in range(nshards):
         L.append("    run_shard_%d();" % k)
-    for m in sweeps:
-        L.append("    utf8_%d();" % m["i"])
+    for (m, k) in sweeps:
+        L.append("    utf8_%d_%d();" % (m["i"], k))
     L.append('    printf("DONE\\n");\n    return 0;\n}')
     shards.append("\n".join(L) + "\n")
     order = []
